@@ -29,6 +29,7 @@ def name_pool(rng, cm):
              b"))((", b") R 0 (z)", b"123456789012345", b"(2345 789) 1234", b"aaaaaaaaaaaaaaa", b"aaaaaaaaaaaaaa", b"kworker/0:1-eve",
              b"\xff\xfe\x80", b"nl\nx", b"t\tb", b"a,b", b"x;y", b"%{x}", b"sshd: user@pts/", b"1", b"0", b"S", b"S 1", b") S 0"]
     fixed += [b" ", b"  ", b" cron", b"cron ", b"  sh", b"my shell", b"my"]             # blanks: leading, trailing, only
+    fixed += [b"a%%b", b"%s%s%s", b"100%d", b"%n", b"50%", b"%5$s"]                    # printf directives are ordinary bytes
     for L in range(1, 16):                                                             # every length the kernel can hand out
         fixed.append(bytes(rng.choice(b"abcdefghijklmnopqrstuvwxyz_-") for _ in range(L)))
     for L in (cm - 2, cm - 1):
@@ -60,6 +61,24 @@ def make_list(rng, want, decoys, nmax=50):
             items.append(rng.choice(decoys))
     rng.shuffle(items)
     return items[:max(nmax, len(want))]
+
+
+def long_list(rng, want, decoys, straddle=None):
+    """more than 511 bytes of list in front of the names that matter (fixed-size copies of the argument lose or cut them);
+    straddle = (name, keep): `name` is placed so that a copy of 511 bytes keeps exactly its first `keep` bytes"""
+    plain = [x for x in decoys if x and b"," not in x] or [b"zz"]
+    pre = []
+    target = rng.choice([480, 500, 505, 509, 510, 511, 512, 515, 600, 1000, 2000])
+    if straddle:
+        target = 511 - straddle[1]
+    while len(b",".join(pre)) + 1 < target - 20:
+        pre.append(rng.choice(plain))
+    if straddle:
+        pad = target - (len(b",".join(pre)) + 1) - 1
+        if pad > 0:
+            pre.append(b"q" * pad)
+        return pre + [straddle[0]] + list(want)
+    return pre + list(want) + [rng.choice(plain) for _ in range(rng.choice([0, 2]))]
 
 
 def near_misses(comm):
@@ -189,6 +208,14 @@ def gen_synth_case(rng, consts, pool):
     elif mode == "near" and n:
         want = near_misses(rng.choice(comms) or b"q")[:2]
     items = make_list(rng, want, decoys + ([x for c in comms for x in near_misses(c)] if rng.random() < 0.3 else []))
+    longl = rng.random() < 0.08
+    if longl:
+        cut = [c for c in comms if c and b"," not in c]
+        if mode in ("none", "near") and cut and rng.random() < 0.5:
+            c0 = rng.choice(cut)                      # an extension of an ancestor's name whose 511-byte cut is that name
+            items = long_list(rng, [], decoys, straddle=(c0 + b"zz", len(c0)))
+        else:
+            items = long_list(rng, want, decoys)
     arg = b",".join(items)
     if rng.random() < 0.1:
         arg = b"," + arg
@@ -199,9 +226,20 @@ def gen_synth_case(rng, consts, pool):
     tree_s = ";".join("%d=%s" % (p, hexs(t)) for p, t in tree.items()) or "[]"
     atab_s = "?" if wild else (";".join("%d:%s:%d" % (p, hexs(c), pp) for p, (c, pp) in atab.items()) or "[]")
     via_chain = b";" not in arg and len(arg) < 3000 and rng.random() < 0.3       # the same call made by the filter chain walker
-    line = "\t".join(["cfilter" if via_chain else "filter", hexs(arg), str(self_pid), str(ppid), tree_s, atab_s])
+    kind, argf = ("cfilter" if via_chain else "filter"), hexs(arg)
+    r = rng.random()
+    if r < 0.06:
+        kind += "0"                                                            # descriptor 0 closed during the call
+    elif r < 0.11 and b";" not in arg and len(arg) < 1500 and len(items) >= 2:
+        h = rng.randrange(1, len(items))                                        # two chain elements: exclude_spawns_of:<a>;exclude_spawns_of:<b>
+        kind, argf, via_chain = "cfilter2", hexs(b",".join(items[:h])) + "+" + hexs(b",".join(items[h:])), True
+    elif r < 0.125 and len(items) >= 2 and not wild:
+        parts = [b",".join(items[i::3]) for i in range(3)]                     # three threads, one list each, at the same time
+        parts = [x.replace(b";", b":") for x in parts if x] or [arg]
+        kind, argf = "tfilter", ";".join(hexs(x) for x in parts)
+    line = "\t".join([kind, argf, str(self_pid), str(ppid), tree_s, atab_s])
     meta = {"depth": n, "items": len(items), "mode": mode, "err": err_kind if err_at is not None else None, "wild": wild,
-            "empty_comm": any(c == b"" for c in comms), "nontrivial": n >= 1 and any(items), "via_chain": via_chain}
+            "empty_comm": any(c == b"" for c in comms), "nontrivial": n >= 1 and any(items), "via_chain": via_chain, "kind": kind, "long": longl}
     return line, meta
 
 
@@ -229,9 +267,19 @@ def drop_cyclic(run, cases, meta):
 
 
 def spec_line(cf, rf):
-    if cf[0] not in ("filter", "cfilter") or len(cf) < 6 or cf[5] == "?" or len(rf) < 2 or rf[1] not in ("drop", "pass"):
+    if len(cf) < 6 or cf[5] == "?" or len(rf) < 2:
         return None
-    return "\t".join(["spec", cf[1], cf[3], cf[5], rf[1]])
+    if cf[0] == "tfilter":
+        return "\t".join(["specm", cf[1], cf[3], cf[5], rf[1]])
+    if rf[1] not in ("drop", "pass"):
+        return None
+    if cf[0] in ("filter", "cfilter", "filter0", "cfilter0"):
+        return "\t".join(["spec", cf[1], cf[3], cf[5], rf[1]])
+    if cf[0] == "cfilter2":                               # the names listed by two chain elements are the names of "a,b"
+        a1, a2 = cf[1].split("+")
+        j = ("" if a1 == "-" else a1) + "2c" + ("" if a2 == "-" else a2)
+        return "\t".join(["spec", j, cf[3], cf[5], rf[1]])
+    return None
 
 
 # ------------------------------------------------------------------------------------------------ real chains
@@ -298,6 +346,8 @@ def gen_hist_case(rng, consts, pool, k, cid):
     listed = b",".join([b"zz", b"", a, b"qq", a])
     if kind in (0, 2, 4):
         steps += ["n:" + hexs(a), "c:" + hexs(listed), "f"]
+        if k % 2:
+            steps += ["z"]                                  # the child runs without descriptor 0 (daemons, closed stdin)
         if kind == 2:
             steps += ["n:" + hexs(other), "c:" + hexs(listed), "c:" + hexs(other), "f", "c:" + hexs(other), "c:" + hexs(listed)]
         elif kind == 4:
@@ -515,6 +565,33 @@ def classify_synth(run, res, cases, stream, exe=None):
         v = impl.split("\t")[1] if "\t" in impl else "?"
         label = "dropped-without-listed-ancestor" if v == "drop" else "passed-with-listed-ancestor"
         f = c.split("\t")
+        if f[0] == "tfilter" and (exe is None or n >= 12):
+            continue                                     # not analysed further (the first dozen failures are)
+        if f[0] == "tfilter":
+            # is it the concurrency?  the same calls one after the other, each in a fresh process
+            singles = ["\t".join(["filter", a, f[2], f[3], f[4], f[5]]) for a in f[1].split(";")]
+            alone = [x.split("\t")[1] if x.startswith("ok\t") else x for x in (impl_only(run, exe, [sc], "single")[0] for sc in singles)]
+            if ",".join(alone) == v:
+                d = os.path.join(run.scratch, "re-single-spec")
+                os.makedirs(d, exist_ok=True)
+                sp = os.path.join(d, "spec.txt")
+                open(sp, "w").write("".join("\t".join(["spec", sc.split("\t")[1], f[3], f[5], al]) + "\n" for sc, al in zip(singles, alone)))
+                so = run.run_model(AREA, sp, os.path.join(d, "spec.out"))
+                for sc, al, ok1 in zip(singles, alone, so):
+                    if ok1 != "ok":
+                        run.violation("spec:%s" % ("dropped-without-listed-ancestor" if al == "drop" else "passed-with-listed-ancestor"), "spec_violation",
+                                      "synthetic /proc: argument %s, parent %s, process table %s: the filter answered %s" % (sc.split("\t")[1], f[3], f[5][:500], al),
+                                      {"stream": stream, "failing_input": sc, "impl_output": al, "cases": [sc]})
+                        nv += 1
+                        break
+                continue
+        if f[0] == "tfilter":
+            run.violation("spec:concurrent-calls-disturb-each-other", "spec_violation",
+                          "synthetic /proc, one thread per list (%s) calling the filter at the same time on the same process table %s (parent %s): verdicts %s (mixed = a thread saw both answers); "
+                          "each call alone: %s" % (f[1], f[5][:300], f[3], v, res["model"][i].replace("\t", " ")),
+                          {"stream": stream, "failing_input": c, "impl_output": impl, "model_output": res["model"][i], "cases": [c]})
+            nv += 1
+            continue
         hist, alone = history_of(run, exe, cases, i, impl) if n < 3 else ([], impl)
         if hist:
             run.violation("spec:verdict-depends-on-earlier-call", "spec_violation",
@@ -592,6 +669,8 @@ def check(run):
         "samples": [allcases[i][:300] for i in range(0, len(allcases), max(1, len(allcases) // 3))][:3] + [c[:300] for c in allchains[:2]],
         "distribution": {"synthetic_cases": len(allcases), "synthetic_drops": sdrops, "synthetic_error_injected": sum(1 for m in meta if m["err"]),
                          "synthetic_wild": sum(1 for m in meta if m["wild"]), "synthetic_through_chain_walker": sum(1 for m in meta if m.get("via_chain")),
+                         "synthetic_kinds": {k: sum(1 for m in meta if m.get("kind") == k) for k in sorted(set(m.get("kind") for m in meta))},
+                         "synthetic_lists_over_511_bytes": sum(1 for m in meta if m.get("long")),
                          "synthetic_depth_11_to_40": sum(1 for m in meta if m["depth"] >= 11), "synthetic_cyclic_tables_left_out": ncyclic, "synthetic_empty_comm": sum(1 for m in meta if m["empty_comm"]),
                          "chains": len(allchains), "chain_depths": depth_hist, "chain_argument_pairs": pairs, "chain_drops": drops,
                          "orphan_chains": sum(1 for m in cmeta if m["mode"] == "orphan"), "histories_call_fork_call": sum(1 for m in cmeta if m["mode"] == "hist"),
